@@ -17,7 +17,9 @@ events, finished, unused_data, next_read_size); the real encoders
 ProtocolThreeResponder, SmartClientRequestProtocolOne/Two, fastbencode) are
 compared byte for byte with the model encoders.  A malformed stream (~10 %) is
 compared the same way (the models are literal on garbage too) except for
-inputs relying on Python's lenient int() syntax.
+inputs relying on Python's lenient int() syntax.  ConventionalResponseHandler is
+modelled in two variants (as found / with the proposed fix of finding F15); the
+variant implemented by the working tree is probed on every run.
 
 Oracle (independent of the model): full real round trips, client encoder ->
 wire cut into arbitrary reads -> server decoder (and server -> client) for
@@ -56,6 +58,7 @@ THEOREMS = [
     "ck_feed_append", "ck_segmentation_independent", "ck_roundtrip",
     "v3_feed_append", "v3_segmentation_independent", "v3_roundtrip_server", "v3_roundtrip_client",
     "v3_args_bencode_roundtrip", "resp_handler_roundtrip_partial", "resp_stream_error_first_witness",
+    "resp_handler_roundtrip_fixed",
     "tuple_roundtrip", "tuple_empty_witness", "tuple_separator_witness",
     "req_feed_append", "req_roundtrip",
 ]
@@ -527,6 +530,23 @@ def do_ck(ctx, b, chunks, fail, rest, segs, drains, bad=None):
     b.add(case, "ck %s" % hseg(segs), out)
 
 
+_variant = []
+
+
+def handler_variant():
+    """which of the two modelled ConventionalResponseHandler variants the working tree
+    implements: 'F' = as found (finding F15), 'T' = with the fix (a status byte after the
+    args is the body-stream status).  Probed on the F15 witness; the oracle does not
+    depend on it."""
+    if not _variant:
+        from fastbencode import bencode
+        p = _proto()
+        wire = p.MESSAGE_VERSION_THREE + be32(2) + b"de" + b"oS" + b"s" + be32(6) + bencode([b"ok"]) + \
+            b"oE" + b"s" + be32(6) + bencode([b"no"]) + b"e"
+        _variant.append("F" if run_v3resp(True, [wire]).startswith("E:") else "T")
+    return _variant[0]
+
+
 def do_v3(ctx, b, marker, hdr, parts, rest, segs, bad=None):
     """parts: list of (kind, payload) with kind in o/b/s"""
     case = dict(kind="v3", marker=marker, hdr=hexb(hdr), parts=[[k, v if k == "o" else hexb(v)] for k, v in parts],
@@ -552,7 +572,7 @@ def do_v3(ctx, b, marker, hdr, parts, rest, segs, bad=None):
         c2 = dict(case, kind="v3resp")
         ctx.case(c2, nontrivial(segs, rest, bad))
         ctx.count("v3resp:%s" % (out2.split("/")[0] if out2.startswith("E:") else "ok"))
-        b.add(c2, "v3resp T %s" % hseg(segs), out2)
+        b.add(c2, "v3resp %s T %s" % (handler_variant(), hseg(segs)), out2)
 
 
 def do_req(ctx, b, w, args, body, rest, segs, bad=None):
@@ -1010,6 +1030,8 @@ def run(ctx, n=None):
     register_verbs()
     rng = ctx.rng
     b = Batch()
+    ctx.extra["response_handler_variant"] = ("as found (F15 present)" if handler_variant() == "F"
+                                             else "with F15 fix (resp_handler_roundtrip_fixed applies)")
     check_consts(ctx, b)
     corpus_cases(ctx, b)
     n = n or ctx.pick(4000, 25000)
